@@ -49,6 +49,9 @@ var Enums = []string{
 	/*3*/ `["a",`, // malformed
 	/*4*/ `[1, 2] // trailing comment`,
 	/*5*/ `{"a": 1}`, // not an array
+	// stand-alone (own-line) comment entries between the values
+	/*6*/ "[\n  // group one\n  \"a\",\n  /* group two */\n  1,\n  \"b\" // last\n]",
+	/*7*/ "[\n  \"x\",\n  // only strings below\n  \"y\",\n  // and this\n  \"z\"\n]",
 }
 
 var Regexes = []string{
@@ -86,6 +89,15 @@ var Docs = []string{
 	/*22*/ `{"v": true, "w": "x"}`,
 	/*23*/ `{"v": 1, "w": 2}`,
 	/*24*/ `{"a": 1, "b": "s"} ]`,
+	/*25*/ `{"a": "b"}`,
+	/*26*/ `"z"`,
+	/*27*/ `{"p": 1, "q": 2}`,
+	/*28*/ `{"p": 1}`,
+	/*29*/ `{"z": {"p": 1, "q": 2}}`,
+	/*30*/ `{"z": {"p": 1}}`,
+	/*31*/ `{"x": {"p": 1}}`,
+	/*32*/ `{"x": {}}`,
+	/*33*/ `{"y": {"q": 2}}`,
 }
 
 // Schemas: type specs first (indices are referenced by the roots below).
@@ -121,6 +133,12 @@ func init() {
 	// inline or-sets with DIFFERENT alternatives: each type owns anonymous types
 	t("t_id", `1 // {or: [{type: "integer"}, {type: "string"}]}`)
 	t("t_flag", `  true // {or: [{type: "boolean"}, {type: "null"}]}`)
+	// plain object types with required keys, used as allOf parents AND directly
+	t("t_p", `{"p": 1}`)
+	t("t_q", `{"q": 2}`)
+	// an object without required keys of its own extending two parents
+	t("t_ext", "{ // {allOf: [\"@p\", \"@q\"]}\n  \"o\": 1 // {optional: true}\n}")
+	Schemas = append(Schemas, SchemaSpec{ID: "t_enum3", Text: `"a" // {enum: @e}`, IsType: true, Rules: []RuleRef{{"@e", 6}}})
 	Schemas = append(Schemas, SchemaSpec{ID: "t_enum", Text: `"a" // {enum: @e}`, IsType: true, Rules: []RuleRef{{"@e", 0}}})
 	Schemas = append(Schemas, SchemaSpec{ID: "t_hoist", Text: `{"u": @u}`, IsType: true, Types: []TypeRef{ty("@u", "t_num")}})
 
@@ -143,6 +161,17 @@ func init() {
 		ty("@or", "t_or"), ty("@num", "t_num"))
 	r("r_idflag", `{"id": @id, "flag": @flag}`, nil, ty("@id", "t_id"), ty("@flag", "t_flag"))
 	r("r_ownor", "{\n  \"v\": true, // {or: [{type: \"boolean\"}, {type: \"null\"}]}\n  \"w\": @id\n}", nil, ty("@id", "t_id"))
+	r("r_enum3", "{\n  \"a\": \"a\" // {enum: @e}\n}", []RuleRef{{"@e", 6}})
+	r("r_enum3n", "{\n  \"a\": 1, // {enum: @e}\n  \"b\": \"b\" // {enum: @e, optional: true}\n}", []RuleRef{{"@e", 6}})
+	r("r_enum3s", `"y" // {enum: @words}`, []RuleRef{{"@words", 7}})
+	r("r_enum3s2", "[\n  \"z\" // {enum: @w}\n]", []RuleRef{{"@w", 7}})
+	r("r_tenum3", `{"a": @te}`, nil, ty("@te", "t_enum3"))
+	r("r_allofpq", "{ // {allOf: [\"@p\", \"@q\"]}\n}", nil, ty("@p", "t_p"), ty("@q", "t_q"))
+	r("r_allofpq2", "{ // {allOf: [\"@q\", \"@p\"]}\n  \"o\": 1 // {optional: true}\n}", nil, ty("@p", "t_p"), ty("@q", "t_q"))
+	r("r_extpq", `{"z": @ext}`, nil, ty("@ext", "t_ext"), ty("@p", "t_p"), ty("@q", "t_q"))
+	r("r_usep", `{"x": @p}`, nil, ty("@p", "t_p"))
+	r("r_proot", `@p`, nil, ty("@p", "t_p"))
+	r("r_useq", `{"y": @q}`, nil, ty("@q", "t_q"))
 	r("r_allof", "{ // {allOf: \"@base\"}\n  \"k\": 1\n}", nil, ty("@base", "t_base"))
 	r("r_allof2", "{ // {allOf: \"@base\"}\n  \"k\": 1\n}", nil, ty("@base", "t_base2"))
 	r("r_uset", `{"a": @t}`, nil, ty("@t", "t_allof"), ty("@base", "t_base"))
